@@ -2,8 +2,10 @@
 // What ssim's watcher model assumes - and what C14 needs from the JavaScript side - is checked on
 // seeded histories of saves and change events:
 //   W1  a change event for a watched file hands the file's CURRENT content to the session
-//       (update_file_content(path, content on disk now)), before anything is built;
-//   W2  and then a build is started;
+//       (update_file_content(path, content on disk now)) - at once or after a delay of its own
+//       choosing: timers run on a simulated clock that the leg drains -, also when two files are
+//       saved together;
+//   W2  and a build is started after the content was handed over;
 //   W3  every file a build reads becomes a watched file (a later save of it reaches the session);
 //   W4  after a successful build the output on disk is the code of that build, not an earlier one.
 import fs from "node:fs";
@@ -21,6 +23,38 @@ export function watchLoopLeg(outDir, N, root) {
     return { ran: false, reason: String(e && e.message).slice(0, 300), violations: [] };
   }
   const cwd0 = process.cwd();
+  // simulated clock: timers of the code under test go into a queue ordered by (due time, sequence)
+  // and fire when the leg lets time pass; no real waiting, no real nondeterminism
+  const real = { setTimeout: globalThis.setTimeout, clearTimeout: globalThis.clearTimeout, setInterval: globalThis.setInterval, clearInterval: globalThis.clearInterval, setImmediate: globalThis.setImmediate };
+  const clock = {
+    now: 0,
+    seq: 0,
+    q: [],
+    add(fn, ms, args, every) {
+      const t = { id: ++this.seq, at: this.now + Math.max(0, Number(ms) || 0), fn, args, every };
+      this.q.push(t);
+      return t.id;
+    },
+    drain() {
+      let guard = 0;
+      while (this.q.length && guard++ < 10000) {
+        this.q.sort((a, b) => a.at - b.at || a.id - b.id);
+        const t = this.q.shift();
+        if (t.every != null) {
+          if (t.at > this.now + 60000) continue; // intervals: one simulated minute is enough
+          this.q.push({ ...t, at: t.at + Math.max(1, t.every) });
+        }
+        this.now = Math.max(this.now, t.at);
+        t.fn(...t.args);
+      }
+      this.q = this.q.filter((t) => t.every == null);
+    },
+  };
+  globalThis.setTimeout = (fn, ms, ...args) => clock.add(fn, ms, args, null);
+  globalThis.clearTimeout = (id) => { clock.q = clock.q.filter((t) => t.id !== id); };
+  globalThis.setInterval = (fn, ms, ...args) => clock.add(fn, ms, args, Number(ms) || 1);
+  globalThis.clearInterval = globalThis.clearTimeout;
+  globalThis.setImmediate = (fn, ...args) => clock.add(fn, 0, args, null);
   const quiet = (fn) => {
     const e = console.error, l = console.log;
     console.error = () => {};
@@ -68,6 +102,7 @@ export function watchLoopLeg(outDir, N, root) {
       process.chdir(dir);
       const C = T.newProcess();
       quiet(() => C.commanderExec());
+      quiet(() => clock.drain());
       const everRead = new Set(readSet);
       const steps = rng.range(2, 10);
       for (let s = 0; s < steps; s++) {
@@ -77,24 +112,37 @@ export function watchLoopLeg(outDir, N, root) {
           readSet = ["entry.ts", ...files.slice(1).filter(() => rng.chance(1, 2))];
           continue;
         }
-        const f = rng.pick(files);
-        put(f);
-        if (rng.chance(1, 4)) put(f); // saved twice before the watcher reports
-        const ws = globalThis.__watchers.filter((w) => w.path === abs(f) && w.ev === "change");
-        if (!ws.length) continue; // not watched (never read): nothing reaches the session, by design
+        // one save, or two files saved together (save-all, a formatter, a checkout)
+        const saved = rng.chance(1, 4) ? rng.shuffle([...files]).slice(0, 2) : [rng.pick(files)];
+        for (const f of saved) {
+          put(f);
+          if (rng.chance(1, 4)) put(f); // saved twice before the watcher reports
+        }
         const before = globalThis.__wasm_calls.length;
         const codeBefore = lastCode;
-        quiet(() => ws[0].cb(abs(f)));
-        res.change_events++;
-        const calls = globalThis.__wasm_calls.slice(before);
-        const first = calls[0];
-        const disk = fs.readFileSync(abs(f), "utf8");
-        if (!first || first.name !== "update_file_content" || first.args[0] !== abs(f) || first.args[1] !== disk) {
-          viol("watch-loop-change-does-not-hand-the-current-content-over", { history: i, file: f, first_call: first ? { name: first.name, file: first.args[0], content: String(first.args[1]).slice(0, 80) } : null, on_disk: disk.slice(0, 80) });
+        const fired = [];
+        for (const f of saved) {
+          const ws = globalThis.__watchers.filter((w) => w.path === abs(f) && w.ev === "change");
+          if (!ws.length) continue; // not watched (never read): nothing reaches the session, by design
+          quiet(() => ws[0].cb(abs(f)));
+          fired.push(f);
+          res.change_events++;
         }
-        const ub = calls.findIndex((c) => c.name === "update_file_content");
-        const bb = calls.findIndex((c) => c.name === "bundle_to_string_v2");
-        if (bb < 0 || (ub >= 0 && bb < ub)) viol("watch-loop-change-is-not-followed-by-a-build", { history: i, file: f, calls: calls.map((c) => c.name) });
+        if (!fired.length) continue;
+        // the loop may defer its work (debouncing): simulated time runs until no timer is left
+        quiet(() => clock.drain());
+        const calls = globalThis.__wasm_calls.slice(before);
+        for (const f of fired) {
+          const disk = fs.readFileSync(abs(f), "utf8");
+          const ups = calls.map((c, k) => ({ c, k })).filter((x) => x.c.name === "update_file_content" && x.c.args[0] === abs(f));
+          const last = ups[ups.length - 1];
+          if (!last || last.c.args[1] !== disk) {
+            viol("watch-loop-change-does-not-hand-the-current-content-over", { history: i, file: f, saved_together: saved, handed_over: last ? String(last.c.args[1]).slice(0, 80) : null, on_disk: disk.slice(0, 80), calls: calls.map((c) => c.name) });
+          } else if (!calls.some((c, k) => c.name === "bundle_to_string_v2" && k > last.k)) {
+            viol("watch-loop-change-is-not-followed-by-a-build", { history: i, file: f, calls: calls.map((c) => c.name) });
+          }
+        }
+        if (!calls.some((c) => c.name === "bundle_to_string_v2")) viol("watch-loop-change-is-not-followed-by-a-build", { history: i, files: fired, calls: calls.map((c) => c.name) });
         for (const x of readSet) everRead.add(x);
         if (lastCode !== codeBefore) {
           // the build succeeded: the output on disk is this build's code
@@ -114,6 +162,7 @@ export function watchLoopLeg(outDir, N, root) {
     res.ran = false;
     res.reason = "watch loop could not be driven: " + String(e && e.stack).slice(0, 400);
   } finally {
+    Object.assign(globalThis, real);
     process.chdir(cwd0);
     fs.rmSync(work, { recursive: true, force: true });
   }
